@@ -114,6 +114,17 @@ static int serve() {
       long long v; sscanf(rest, "%lld", &v);
       if (gBackup) gBackup->mNow = (acetime_t) v;
       printf("= OK\n");
+    } else if (!strcmp(cmd, "STEP")) {
+      unsigned long long d; int ready; long long v;
+      if (sscanf(rest, "%llu %d %lld", &d, &ready, &v) != 3) { printf("= BAD\n"); continue; }
+      gMillis += d;
+      if (gRef) { gRef->mReady = ready != 0; gRef->mResponse = (acetime_t) v; gRef->mNow = (acetime_t) v; }
+      gLog.clear();
+      gClock->loop();
+      std::string ev = gLog;
+      gLog.clear();
+      acetime_t now = gClock->getNow();
+      printf("= %d %d | %s\n", (int) now, (int) gClock->getLastSyncTime(), ev.c_str());
     } else if (!strcmp(cmd, "LOOP")) {
       gLog.clear();
       gClock->loop();
